@@ -306,6 +306,11 @@ class Fn:
                 if type(op) in m:
                     self.uses_T = True
                     return ("(%s OP %s %s)" % (m[type(op)], self.promote(n, a, 'F'), self.promote(n, b, 'F')), 'F')
+            # [C03] spec option "float_floordiv" (off by default): `a // b` on floats as floor of the rounded quotient (equal to
+            # Python's / numpy's floor division whenever a / b is exact, e.g. x // abs(x) = +-1)
+            if self.spec.get("float_floordiv") and isinstance(op, ast.FloorDiv) and a[1] in ('Z', 'F') and b[1] in ('Z', 'F'):
+                self.uses_T = True
+                return ("(ofZ OP (floorZ OP (div OP %s %s)))" % (self.promote(n, a, 'F'), self.promote(n, b, 'F')), 'F')
             # [C04] spec option "bool_arith": a numpy bool operand of + or * is the number 0/1 (bool array * float array,
             # int count += bool array).  Off by default: no effect on other specs.
             if self.spec.get("bool_arith") and isinstance(op, (ast.Add, ast.Mult)) and (a[1] == 'B') != (b[1] == 'B') \
@@ -465,7 +470,28 @@ class Fn:
             if not unit:
                 _fail(n, "slice with a step that is not None/1/<slice>.step")
             n = ast.Call(func=n.func, args=n.args[:2], keywords=[])
-        args = [self.expr(a, env) for a in n.args]
+        # [C06] spec option "star_args": `f(*g(...), ...)` where g(...) has a tuple type: the components are bound by a
+        # destructuring let around the call and passed on one by one.  Off by default: no effect on other specs.
+        star_lets = []
+        if self.spec.get("star_args") and any(isinstance(a, ast.Starred) for a in n.args):
+            args = []
+            for a in n.args:
+                if isinstance(a, ast.Starred):
+                    tx = self.expr(a.value, env)
+                    if not (isinstance(tx[1], tuple) and tx[1][0] == 'T'):
+                        _fail(n, "*argument that is not a tuple")
+                    names = []
+                    for ct in tx[1][1:]:
+                        self.fresh += 1
+                        names.append("star__%d" % self.fresh)
+                        args.append((names[-1], ct))
+                    star_lets.append("let '(%s) := %s in " % (", ".join(names), tx[0]))
+                else:
+                    args.append(self.expr(a, env))
+            if name not in self.calls:
+                _fail(n, "call with *arguments to %s not in whitelist" % name)
+        else:
+            args = [self.expr(a, env) for a in n.args]
         if name == "list" and len(args) == 1 and self.static_kinds and isinstance(args[0][1], tuple) and args[0][1][0] == 'T':
             return args[0]      # [C14] list(<small tuple>): same components; item assignment is a functional update
         if name == "slice" and len(args) == 2:
@@ -506,11 +532,14 @@ class Fn:
             return (self.promote(n, args[0], 'F'), 'F')
         if name in self.calls:
             cname, atypes, rtype = self.calls[name]
+            atypes, rtype = [_tup(t) for t in atypes], _tup(rtype)    # [C06] tuple-typed arguments/results (JSON lists); strings unchanged
             if len(atypes) != len(args):
                 _fail(n, "arity of %s" % name)
             txt = " ".join(self.promote(n, a, t) for a, t in zip(args, atypes) if t != "_")   # "_": argument not passed on [C14]
             if 'F' in atypes or rtype == 'F':
                 self.uses_T = True
+            if star_lets:
+                return ("(%s(%s %s))" % ("".join(star_lets), cname, txt), rtype)
             return ("(%s %s)" % (cname, txt), rtype)
         _fail(n, "call to %s not in whitelist" % name)
 
@@ -1344,8 +1373,40 @@ def slice_vars(fdef, opt):
     computing the `outputs`, made of the top-level assignments the outputs depend on, in source order.
     `self.<attr> = V` for attr in self_attrs counts as an assignment to the name self__<attr>.
     Fails if an output is never assigned or if a needed name is (re)bound inside a nested block."""
-    inputs, outputs = list(opt["inputs"]), list(opt["outputs"])
+    inputs, outputs = list(opt["inputs"]), opt["outputs"]
     self_attrs = set(opt.get("self_attrs", []))
+    if opt.get("inputs_from_call"):
+        # the inputs are, by position, the targets of the first top-level `a, b = <call>(...)`; whatever the source calls
+        # them, they are renamed to the declared input names (so renaming these locals in the source changes nothing)
+        hit = None
+        for st in fdef.body:
+            if isinstance(st, ast.Assign) and len(st.targets) == 1 and isinstance(st.targets[0], ast.Tuple) \
+                    and all(isinstance(e, ast.Name) for e in st.targets[0].elts) and isinstance(st.value, ast.Call) \
+                    and len(st.targets[0].elts) == len(inputs):
+                hit = st
+                break
+        if hit is None:
+            raise Untranslatable("slice_vars: no top-level `a, b = call(...)` with %d targets" % len(inputs))
+        ren = {e.id: new for e, new in zip(hit.targets[0].elts, inputs) if e.id != new}
+        clash = set(ren.values()) & {n.id for n in ast.walk(fdef) if isinstance(n, ast.Name)} - set(ren)
+        if ren and clash:
+            raise Untranslatable("slice_vars: declared input names %s already used in the function" % sorted(clash))
+
+        class _Ren(ast.NodeTransformer):
+            def visit_Name(self, node):
+                return ast.copy_location(ast.Name(id=ren.get(node.id, node.id), ctx=node.ctx), node)
+        if ren:
+            fdef = _Ren().visit(fdef)
+    if outputs == "return":
+        # the outputs are the names returned by the last top-level statement `return a, b`
+        last = fdef.body[-1]
+        if not isinstance(last, ast.Return) or last.value is None:
+            raise Untranslatable("slice_vars: the function does not end in a return")
+        elts = last.value.elts if isinstance(last.value, ast.Tuple) else [last.value]
+        if not all(isinstance(e, ast.Name) for e in elts):
+            raise Untranslatable("slice_vars: the returned expressions are not plain names")
+        outputs = [e.id for e in elts]
+    outputs = list(outputs)
 
     def targets(st):
         if not isinstance(st, ast.Assign) or len(st.targets) != 1:
